@@ -4,6 +4,7 @@ The real boot() (and MachineController.boot) run with socket/time bound to the
 virtual network; every boot datagram is recorded and decoded by an independent
 decoder; the 128-byte configuration area is compared with an independent
 packing of the sark.struct defaults (own parser) with this call's options."""
+import warnings
 import importlib
 import os
 import shutil
@@ -357,9 +358,25 @@ def run(case, ctx):
                     if mstate == "down-unchecked":
                         kw2["only_if_needed"] = False
                     where["machine"] = mstate
+                    dep = ()
+                    sel = (bi + b["size"] // 4) % 4
+                    if sel and not ("width" in kw2 or "height" in kw2):
+                        # the deprecated machine dimensions ("now ignored"),
+                        # by position, by keyword, or only one of them
+                        ctx.hit("deprecated_dimensions_given")
+                        wd, hd = 8 * (1 + b["size"] % 3), 8 * (1 + bi % 2)
+                        if sel == 1:
+                            dep = (wd, hd)
+                        elif sel == 2:
+                            kw2.update(width=wd, height=hd)
+                        else:
+                            kw2.update(height=hd)
+                        where["deprecated_dimensions"] = (sel, wd, hd)
                     try:
-                        did = mc.boot(scamp_binary=path,
-                                      boot_delay=b["delay"], **kw2)
+                        with warnings.catch_warnings():
+                            warnings.simplefilter("ignore")
+                            did = mc.boot(*dep, scamp_binary=path,
+                                          boot_delay=b["delay"], **kw2)
                     except mcm.SpiNNakerBootError as e:
                         did = e
                     structs = mc.structs
